@@ -35,6 +35,10 @@ class OwnDriver(object):
     (used until the rib.* ops are wired into the shared native driver)"""
 
     def __init__(self):
+        b = subprocess.run(['lake', 'build', 'Yabgp.Driver.RibOps'], cwd=LEAN_DIR, stdout=subprocess.PIPE,
+                           stderr=subprocess.STDOUT, text=True)
+        if b.returncode != 0:
+            raise RuntimeError('lake build Yabgp.Driver.RibOps failed:\n' + b.stdout[-2000:])
         self.p = subprocess.Popen(['lake', 'env', 'lean', '--run', 'Yabgp/Driver/RibMain.lean'], cwd=LEAN_DIR,
                                   stdin=subprocess.PIPE, stdout=subprocess.PIPE, text=True, bufsize=1 << 16)
         self.n = 0
@@ -534,7 +538,7 @@ def run(seed, tier, driver):
         for seq in itertools.product(range(len(ext)), repeat=1 if tier == 'quick' else 2):
             run_.run(False, flat(ext[i] for i in seq), tag='ext-norib')
     # (c) seeded random histories up to 40 operations, session drops included
-    n_rand = {'quick': 500, 'thorough': 20000, 'search': 1500}[tier]
+    n_rand = {'quick': 1000, 'thorough': 20000, 'search': 1500}[tier]
     for i in range(n_rand):
         rib = r.random() < 0.9
         evs = rnd_history(r, r.choice([5, 10, 20, 40, 40]))
